@@ -182,9 +182,10 @@ class compute_catalogue:
         if expected is not None:
             r["values"] = _same(val, expected)
             r["shape"] = np.shape(val) == np.shape(expected)
-            if not any(math.isnan(s) for s in x.shape):
-                r["advertised-shape"] = tuple(x.shape) == np.shape(val)
-            r["dtype"] = np.asarray(val).dtype == x.dtype
+        # the advertised metadata against what was computed -- also for entries without an independent NumPy reference
+        if not any(math.isnan(s) for s in x.shape):
+            r["advertised-shape"] = tuple(x.shape) == np.shape(val)
+        r["dtype"] = np.asarray(val).dtype == x.dtype
         return r
 
     def domain(tier, rng):
@@ -272,6 +273,45 @@ class transfer_bytes_catalogue:
 
     def domain(tier, rng):
         yield from entry_domain(tier, rng)
+
+
+@contract("dask_array/_rechunk.py::P2PRechunk.transfer_bytes", spec="hand-built", props=["C27"])
+class p2p_rechunk_transfer:
+    """every flavour of rechunk node, also built directly over an input (as the lowering does): 0 <= min <= max, and a
+    rechunk to the same chunks moves nothing"""
+    bounded_only = True
+    params = {"cls": "const", "old": "const", "new": "const"}
+    scope = "Rechunk / TasksRechunk / P2PRechunk nodes over 1-D inputs of <= 6 elements, every pair of layouts (quick: sampled)"
+
+    def real():
+        return lambda: None
+
+    def call(fn, cls, old, new):
+        import dask_array as da
+        from dask_array import _rechunk as R
+        x = da.ones((sum(old),), chunks=(old,), dtype="f8")
+        node = getattr(R, cls)(x.expr, (new,))
+        return tuple(node.transfer_bytes)
+
+    def requires(cls, old, new):
+        return sum(old) == sum(new)
+
+    def ensures(result, cls, old, new):
+        lo, hi = result
+        return {"0<=min<=max": 0 <= lo <= hi, "same-chunks-move-nothing": old != new or (lo, hi) == (0, 0)}
+
+    def domain(tier, rng):
+        from contracts.slicing import chunkings
+        lays = {}
+        for n, c in chunkings(5 if tier == "quick" else 6, zero=False):
+            lays.setdefault(n, []).append(c)
+        for cls in ("Rechunk", "TasksRechunk", "P2PRechunk"):
+            for n, cs in lays.items():
+                if n == 0:
+                    continue
+                for a in cs:
+                    for b in cs:
+                        yield {"cls": cls, "old": a, "new": b}
 
 
 # ---------------------------------------------------------------------------
@@ -825,8 +865,15 @@ def _eval_unoptimized(expr):
     import dask
     import numpy as np
     from dask_array._new_collection import new_collection
+    # NOT `.compute()`: with array.optimize-graph=False the collection's own graph is the un-simplified one, but dask's
+    # compute() optimises the expression again on its way to the scheduler (observed: x.map_blocks(np.cumsum)[2:4]).
+    # The graph is taken from the collection and handed to the scheduler directly.
     with dask.config.set({"array.optimize-graph": False}):
-        return np.asarray(new_collection(expr).compute())
+        c = new_collection(expr)
+        graph = dict(c.__dask_graph__())
+        keys = c.__dask_keys__()
+        finalize, extra = c.__dask_postcompute__()
+    return np.asarray(finalize(dask.get(graph, keys), *extra))
 
 
 class _RewriteRecorder:
@@ -1856,6 +1903,84 @@ class inplace_sequences:
                        "set-ndarray-key-then-mutate-key", "set-list-key-then-mutate-key", "set-dask-key-then-mutate-key"):
                 for touch in (False, True):
                     yield {"chunks": ch, "op": op, "touch": touch}
+
+
+@contract("dask_array/_blockwise.py::Blockwise._accept_slice", spec="block-function-not-pointwise", props=["C02"])
+class slice_through_user_block_function:
+    """a slice or take above map_blocks / blockwise with a user function selects the same elements whether or not it is
+    pushed into the function's input (known finding F43: the fine-grained pushdown assumes the block function is pointwise
+    along the indexed axis; a per-block cumsum or reversal is not)"""
+    bounded_only = True
+    params = {"fn_kind": "const", "chunks": "const", "index": "const"}
+    scope = "1-D length 12; per-block cumsum / reversal / pointwise square; slices and takes; raw graph against the optimised one"
+
+    def real():
+        return lambda: None
+
+    def call(fn, fn_kind, chunks, index):
+        import numpy as np
+        import dask_array as da
+        x = da.from_array(np.arange(12.0), chunks=(chunks,))
+        f = {"cumsum": np.cumsum, "reverse": (lambda b: b[::-1]), "square": (lambda b: b * b)}[fn_kind]
+        y = x.map_blocks(f, dtype=float)[index]
+        return _eval_unoptimized(y.expr), np.asarray(y.compute())
+
+    def requires(fn_kind, chunks, index):
+        return True
+
+    def ensures(result, fn_kind, chunks, index):
+        raw, opt = result
+        return {"optimised-equals-raw": _same(raw, opt)}
+
+    def domain(tier, rng):
+        for k in ("cumsum", "reverse", "square"):
+            for ch in ((4, 4, 4), (5, 7), (12,)):
+                for idx in (slice(2, 4), slice(None, None, 2), [0, 5, 9], slice(4, 8)):
+                    yield {"fn_kind": k, "chunks": ch, "index": idx}
+
+
+def _bincount_contract(spec, below):
+  @contract("dask_array/routines/_bincount.py::bincount", spec=spec, props=["C03"])
+  class bincount_minlength:
+      """bincount advertises the length it computes (known finding F44: with minlength=m the advertised length is exactly m,
+      also when the data holds values >= m and the computed result is longer)"""
+      bounded_only = True
+      params = {"data": "const", "chunks": "const", "minlength": "const"}
+      scope = "small non-negative integer vectors, 3 layouts, minlength 0 / below / at / above max+1"
+
+      def real():
+          import dask_array as da
+          return da.bincount
+
+      def call(fn, data, chunks, minlength):
+          import numpy as np
+          import dask_array as da
+          a = np.array(data)
+          b = fn(da.from_array(a, chunks=(chunks,)), minlength=minlength)
+          return tuple(b.shape), b.chunks, np.asarray(b.compute()), np.bincount(a, minlength=minlength)
+
+      def requires(data, chunks, minlength):
+          return True
+
+      def ensures(result, data, chunks, minlength):
+          import math
+          shape, chunks_, got, want = result
+          known = not any(isinstance(s, float) and math.isnan(s) for s in shape)
+          return {"advertised-length-is-the-computed-length": (not known) or shape == got.shape,
+                  "values-equal-numpy": _same(got, want)}
+
+      def domain(tier, rng):
+          for data in ((0, 5, 1, 5), (2, 2, 0, 1), (3, 0, 0, 7, 1, 1)):
+              for ch in ((2, 2) if len(data) == 4 else (2, 2, 2), (len(data),), (1,) * len(data)):
+                  for m in ((3,) if below else (0, max(data) + 1, max(data) + 4)):
+                      yield {"data": data, "chunks": ch, "minlength": m}
+
+  bincount_minlength.__name__ = "bincount_" + spec.replace("-", "_")
+  return bincount_minlength
+
+
+BINC1 = _bincount_contract("minlength-below-data", True)
+BINC2 = _bincount_contract("minlength-covers-data", False)
 
 
 @contract("dask_array/io/_store.py::store", spec="identical-targets", props=["C25"])
